@@ -296,6 +296,9 @@ func Catalogue(prop, tier string) []Cfg {
 		}
 	case "C17":
 		scripts()
+		// a discipline created without inputs, all of them added afterwards
+		add(pc("v1", []uint{2, 1}, 2, "fair", []int{2}, []int{2, 1}, "rr", "fromempty"))
+		add(pc("v1", []uint{3, 2, 1}, 3, "fair", []int{0, 1, 1}, []int{1, 1, 1}, "pool", "fromempty"))
 		// GracefulStop() pending on open inputs, ended by removing them
 		for _, env := range []string{"rr", "pool"} {
 			g := pc("v1", []uint{2, 1}, 2, "fair", []int{2}, []int{2, 1}, env, "gracefulfirst")
@@ -579,6 +582,20 @@ func Catalogue(prop, tier string) []Cfg {
 			rc("v1", func(c *Cfg) { c.N = []int{2}; c.Script = 1 })
 		}
 	case "C16":
+		// the context already cancelled at creation; Stop() more than once
+		for _, stop := range []string{"precancel", "twice"} {
+			if stop == "precancel" {
+				c := pc("s1", []uint{2, 1}, 2, "fair", []int{2}, []int{2, 1}, "", "")
+				c.Stop = stop
+				add(c)
+			}
+			c := pc("v1", []uint{2, 1}, 2, "fair", []int{2}, []int{2, 1}, "pool", "")
+			c.Stop = stop
+			add(c)
+			c = pc("v1", []uint{2, 1}, 2, "fair", []int{2}, []int{2, 1}, "pool", "norelease")
+			c.Stop = stop
+			add(c)
+		}
 		// Stop() and cancel() racing from two goroutines
 		for _, mode := range []string{"", "norelease"} {
 			c := pc("v1", []uint{2, 1}, 2, "fair", []int{2}, []int{2, 1}, "pool", mode)
